@@ -256,6 +256,7 @@ INSTANCE_POOL = [
     [1, 1.0], [0], [False], [[0]], [[False]],
     {}, {"a": 1}, {"a": "x"}, {"a": 1, "b": 2}, {"b": 1}, {"ab": 1}, {"": 1}, {"a": 1.5}, {"abc": "x", "b": 1},
     {"a": 0}, {"a": False}, ["x", "y", "z"], ["x", 1, "y"], {"a": "x", "b": "y"}, {"c": 1}, [1, True], [1, "x", "x"],
+    -1e308, -1.5e308, -(2 ** 53 + 1), -0.5, [{"a": 1, "b": 2}, {"a": 2}, {"b": 2, "a": 1}], [[1], [1, 0], [1.0]], [{"a": 1}, {"a": 1, "b": 0}, {"a": 1.0}],
 ]
 
 
@@ -401,7 +402,8 @@ def search_meta(job):
     from spec.pyops import PyOps
     out, tried = [], 0
     scalars = [None, True, False, 0, 1, -1, 1.5, "", "a", [], [1], ["a"], ["a", "a"], {}, {"a": 1}, [{}], {"a": {}}, {"a": []}, {"a": "b"}, [[]], "integer", ["integer"], ["integer", "integer"],
-               {"type": "integer"}, {"type": 12}, [{"type": 12}], {"a": {"type": 12}}, -0.5, 2 ** 70, "(", {"a": ["b", 1]}, {"a": ["b", "b"]}]
+               {"type": "integer"}, {"type": 12}, [{"type": 12}], {"a": {"type": 12}}, -0.5, 2 ** 70, "(", {"a": ["b", 1]}, {"a": ["b", "b"]},
+               [{"title": "x", "type": "string"}, {"title": "y"}, {"type": "string", "title": "x"}], [[1], [1, 0], [1.0]], ["a", "b", "a"], [1, 2, 1.0]]
     for d in job.get("drafts", (3, 4, 6, 7)):
         cls = classes(validators)[d]
         meta = json.load(open(root + "/jsonschema/schemas/draft%d.json" % d))
